@@ -367,7 +367,7 @@ func gen(r *vu.Rng, i int) []string {
 	// (a generous limit is usually 2^16: the Framer allocates Length bytes per frame, and 16 MiB
 	// buffers for garbage length fields only cost time)
 	maxRead := uint32(1 << 16)
-	if r.Chance(1, 40) {
+	if r.Chance(1, 150) {
 		maxRead = 1<<24 - 1
 	}
 	switch r.Intn(8) {
